@@ -421,7 +421,7 @@ func absentMarks(c *Ctx, id string) {
 		kk := k
 		choices := map[string]int{}
 		for i := 0; i < k; i++ {
-			choices[fmt.Sprintf("lookup%d", i)] = 4 // 0: assigned (index ≥ 0), 1: unassigned (index < 0), 2: invalid replica, 3: other error
+			choices[fmt.Sprintf("lookup%d", i)] = 5 // 0: assigned (index > 0), 1: unassigned (index < 0), 2: invalid replica, 3: other error, 4: assigned to server 0
 		}
 		calls := map[*State]int{}
 		h := &Harness{Fn: cb, Choices: choices, Quiet: quietLog, NoInline: map[string]bool{setAbsent: true}, MaxSteps: 6000,
@@ -440,6 +440,8 @@ func absentMarks(c *Ctx, id string) {
 					switch st.C(fmt.Sprintf("lookup%d", i)) {
 					case 0:
 						return []AV{avInt{conc: 2}, avIface{isNil: true}}, true
+					case 4:
+						return []AV{avInt{conc: 0}, avIface{isNil: true}}, true
 					case 1:
 						return []AV{avInt{conc: -1}, avIface{isNil: true}}, true
 					case 2:
@@ -470,6 +472,9 @@ func absentMarks(c *Ctx, id string) {
 					// a lookup failure stops the loop and is reported
 					if b, ok := out.Ret[0].(avBool); !ok || b.b {
 						return fmt.Sprintf("lookup of copy %d failed but the loop goes on", i)
+					}
+					if e, ok := out.Final("outerError").(avIface); !ok || e.isNil {
+						return fmt.Sprintf("lookup of copy %d failed but the error is not handed to the caller (who would panic on it)", i)
 					}
 					return ""
 				}
